@@ -116,58 +116,58 @@ def memS : DT → V → Prop
   | .pair a b, v => ∃ x y, v = .pair x y ∧ memS a x ∧ memS b y
   | .list t sz, v => ∃ vs, v = .list vs ∧ (∀ x ∈ vs, memS t x) ∧ Mem (vs.length : Int) sz
 
-theorem mapM'_total (f : V → Option V) : ∀ vs : List V, (∀ v ∈ vs, ∃ w, f v = some w) →
-    ∃ ws, mapM' f vs = some ws ∧ ws.length = vs.length
+theorem mapOpt_total (f : V → Option V) : ∀ vs : List V, (∀ v ∈ vs, ∃ w, f v = some w) →
+    ∃ ws, mapOpt f vs = some ws ∧ ws.length = vs.length
   | [], _ => ⟨[], rfl, rfl⟩
   | v :: vs, h => by
     obtain ⟨w, hw⟩ := h v List.mem_cons_self
-    obtain ⟨ws, hws, hl⟩ := mapM'_total f vs (fun x hx => h x (List.mem_cons_of_mem _ hx))
-    exact ⟨w :: ws, by simp [mapM', hw, hws], by simp [hl]⟩
+    obtain ⟨ws, hws, hl⟩ := mapOpt_total f vs (fun x hx => h x (List.mem_cons_of_mem _ hx))
+    exact ⟨w :: ws, by simp [mapOpt, hw, hws], by simp [hl]⟩
 
-theorem mapM'_cons (f : V → Option V) (v : V) (vs ws : List V) (h : mapM' f (v :: vs) = some ws) :
-    ∃ w ws', ws = w :: ws' ∧ f v = some w ∧ mapM' f vs = some ws' := by
-  simp only [mapM', bind, Option.bind, pure] at h
+theorem mapOpt_cons (f : V → Option V) (v : V) (vs ws : List V) (h : mapOpt f (v :: vs) = some ws) :
+    ∃ w ws', ws = w :: ws' ∧ f v = some w ∧ mapOpt f vs = some ws' := by
+  simp only [mapOpt, bind, Option.bind, pure] at h
   cases hf : f v with
   | none => simp [hf] at h
   | some w =>
-    cases hr : mapM' f vs with
+    cases hr : mapOpt f vs with
     | none => simp [hf, hr] at h
     | some ws' => simp only [hf, hr, Option.some.injEq] at h; exact ⟨w, ws', h.symm, rfl, rfl⟩
 
-theorem mapM'_length (f : V → Option V) : ∀ (vs ws : List V), mapM' f vs = some ws → ws.length = vs.length
-  | [], ws, h => by simp [mapM'] at h; subst h; rfl
+theorem mapOpt_length (f : V → Option V) : ∀ (vs ws : List V), mapOpt f vs = some ws → ws.length = vs.length
+  | [], ws, h => by simp [mapOpt] at h; subst h; rfl
   | v :: vs, ws, h => by
-    obtain ⟨w, ws', rfl, _, hr⟩ := mapM'_cons f v vs ws h
-    simp [mapM'_length f vs ws' hr]
+    obtain ⟨w, ws', rfl, _, hr⟩ := mapOpt_cons f v vs ws h
+    simp [mapOpt_length f vs ws' hr]
 
-theorem mapM'_forall (f : V → Option V) (P : V → Prop) (Q : V → Prop) (hPQ : ∀ v w, P v → f v = some w → Q w) :
-    ∀ (vs ws : List V), (∀ v ∈ vs, P v) → mapM' f vs = some ws → ∀ w ∈ ws, Q w
-  | [], ws, _, h => by simp [mapM'] at h; subst h; simp
+theorem mapOpt_forall (f : V → Option V) (P : V → Prop) (Q : V → Prop) (hPQ : ∀ v w, P v → f v = some w → Q w) :
+    ∀ (vs ws : List V), (∀ v ∈ vs, P v) → mapOpt f vs = some ws → ∀ w ∈ ws, Q w
+  | [], ws, _, h => by simp [mapOpt] at h; subst h; simp
   | v :: vs, ws, hP, h => by
-    obtain ⟨w, ws', rfl, hf, hr⟩ := mapM'_cons f v vs ws h
+    obtain ⟨w, ws', rfl, hf, hr⟩ := mapOpt_cons f v vs ws h
     intro x hx
     rcases List.mem_cons.mp hx with rfl | hx
     · exact hPQ v _ (hP v List.mem_cons_self) hf
-    · exact mapM'_forall f P Q hPQ vs ws' (fun y hy => hP y (List.mem_cons_of_mem _ hy)) hr x hx
+    · exact mapOpt_forall f P Q hPQ vs ws' (fun y hy => hP y (List.mem_cons_of_mem _ hy)) hr x hx
 
-theorem mapM'_injective (f : V → Option V) : ∀ (vs vs' ws : List V),
+theorem mapOpt_injective (f : V → Option V) : ∀ (vs vs' ws : List V),
     (∀ v ∈ vs, ∀ v' w, f v = some w → f v' = some w → v = v') →
-    mapM' f vs = some ws → mapM' f vs' = some ws → vs = vs'
+    mapOpt f vs = some ws → mapOpt f vs' = some ws → vs = vs'
   | [], vs', ws, _, h, h' => by
-    simp [mapM'] at h; subst h
+    simp [mapOpt] at h; subst h
     cases vs' with
     | nil => rfl
-    | cons a t => obtain ⟨_, _, he, _, _⟩ := mapM'_cons f a t [] h'; cases he
+    | cons a t => obtain ⟨_, _, he, _, _⟩ := mapOpt_cons f a t [] h'; cases he
   | v :: vs, vs', ws, hinj, h, h' => by
-    obtain ⟨w, ws', rfl, hf, hr⟩ := mapM'_cons f v vs ws h
+    obtain ⟨w, ws', rfl, hf, hr⟩ := mapOpt_cons f v vs ws h
     cases vs' with
-    | nil => simp [mapM'] at h'
+    | nil => simp [mapOpt] at h'
     | cons a t =>
-      obtain ⟨w2, ws2, he, hf', hr'⟩ := mapM'_cons f a t _ h'
+      obtain ⟨w2, ws2, he, hf', hr'⟩ := mapOpt_cons f a t _ h'
       cases he
       have : v = a := hinj v List.mem_cons_self a w hf hf'
       subst this
-      rw [mapM'_injective f vs t ws' (fun x hx => hinj x (List.mem_cons_of_mem _ hx)) hr hr']
+      rw [mapOpt_injective f vs t ws' (fun x hx => hinj x (List.mem_cons_of_mem _ hx)) hr hr']
 
 /-! ### inversion lemmas for `imageT` and `conv` -/
 
@@ -221,9 +221,9 @@ theorem conv_pair {cap : Nat} {a1 a2 b1 b2 : DT} {x y w : V} (h : conv cap (.pai
     | some wy => simp only [hx, hy, Option.some.injEq] at h; exact ⟨wx, wy, rfl, rfl, h.symm⟩
 
 theorem conv_list {cap : Nat} {t t' : DT} {s s' : Ivs} {vs : List V} {w : V} (h : conv cap (.list t s) (.list t' s') (.list vs) = some w) :
-    ∃ ws, mapM' (conv cap t t') vs = some ws ∧ containsV cap s' (Int.ofNat ws.length) = true ∧ w = .list ws := by
+    ∃ ws, mapOpt (conv cap t t') vs = some ws ∧ containsV cap s' (Int.ofNat ws.length) = true ∧ w = .list ws := by
   simp only [conv, bind, Option.bind, pure] at h
-  cases hws : mapM' (conv cap t t') vs with
+  cases hws : mapOpt (conv cap t t') vs with
   | none => simp [hws] at h
   | some ws =>
     simp only [hws] at h
@@ -300,7 +300,7 @@ theorem conv_total (cap k : Nat) (hc : 2 ≤ cap) (hk : k * k < cap) :
     | list t' sz' =>
       obtain ⟨u, h1, hs, _⟩ := imageT_list h
       obtain ⟨vs, rfl, hall, hlen⟩ := hv
-      obtain ⟨ws, hws, hl⟩ := mapM'_total (conv cap t t') vs (fun x hx => ih t' u wa.1 wb.1 h1 x (hall x hx))
+      obtain ⟨ws, hws, hl⟩ := mapOpt_total (conv cap t t') vs (fun x hx => ih t' u wa.1 wb.1 h1 x (hall x hx))
       have hin := containsV_complete cap hc sz' wb.2.1 _ (C11.leaf_subset cap k hc hk sz sz' wa.2 wb.2 hs _ hlen)
       refine ⟨.list ws, ?_⟩
       have hin' : containsV cap sz' (ws.length : Int) = true := by rw [hl]; exact hin
@@ -361,8 +361,8 @@ theorem conv_in_image (cap : Nat) :
       obtain ⟨vs, rfl, hall, hlen⟩ := hv
       obtain ⟨ws, hws, _, rfl⟩ := conv_list hw
       refine ⟨ws, rfl, ?_, ?_⟩
-      · exact mapM'_forall (conv cap t t') (memS t) (memS u) (fun x y hx hy => ih t' u h1 x y hx hy) vs ws hall hws
-      · rw [mapM'_length _ vs ws hws]; exact hlen
+      · exact mapOpt_forall (conv cap t t') (memS t) (memS u) (fun x y hx hy => ih t' u h1 x y hx hy) vs ws hall hws
+      · rw [mapOpt_length _ vs ws hws]; exact hlen
 
 /-- a conversion only accepts values of the source's shape -/
 theorem conv_shape_int {cap : Nat} {a : Ivs} {B : DT} {v w : V} (h : conv cap (.int a) B v = some w) : ∃ n, v = .i n := by
@@ -466,7 +466,7 @@ theorem conv_injective (cap : Nat) :
       obtain ⟨ws, hws, _, rfl⟩ := conv_list h
       obtain ⟨ws', hws', _, e⟩ := conv_list h'
       cases e
-      rw [mapM'_injective (conv cap t t') vs vs' ws (fun x _ x' y hx hx' => ih t' x x' y hx hx') hws hws']
+      rw [mapOpt_injective (conv cap t t') vs vs' ws (fun x _ x' y hx hx' => ih t' x x' y hx hx') hws hws']
 
 /-- **Refused, not approximated**: a leaf outside the target's range makes the whole conversion fail. -/
 theorem conv_refuses_leaf (cap : Nat) (a b : Ivs) (n : Int) (h : containsV cap b n = false) :
